@@ -206,7 +206,10 @@ Inductive beh :=
 | BOkPanic    (* completes without error, then panics *)
 | BNever      (* returns without completing *)
 | BTwice      (* completes twice, returns *)
-| BOkBad.     (* completes without error but with a result that cannot be serialised, returns *)
+| BOkBad      (* completes without error but with a result that cannot be serialised, returns *)
+| BDefer      (* keeps the completion function for later, returns without completing *)
+| BOkDefer    (* completes without error, keeps the completion function as well, returns *)
+| BDeferPanic.  (* keeps the completion function, then panics *)
 
 Inductive ser := SJson | SProto | SNil.
 (* serializer.Unmarshal of THIS call's payload into a FRESH value of a type: the token of the value
@@ -244,6 +247,19 @@ Definition req_script (b : beh) : list (bool * bool) * bool :=
   | BNever => ([], false)
   | BTwice => ([(false, false); (false, false)], false)
   | BOkBad => ([(false, true)], false)
+  | BDefer => ([], false)
+  | BOkDefer => ([(false, false)], false)
+  | BDeferPanic => ([], true)
+  end.
+
+(* does the handler keep the completion function it was given (to run it after it returned)?
+   Some g: it does, and g is the state the once-guard is left in when the call is over (consumed by
+   a completion of the handler itself, or by the recover's "panic in rpc") *)
+Definition keeps (b : beh) : option bool :=
+  match b with
+  | BDefer => Some false
+  | BOkDefer | BDeferPanic => Some true
+  | _ => None
   end.
 
 Definition notify_panics (b : beh) : bool :=
@@ -337,6 +353,34 @@ Definition call_ser_g (rp : bool) (cs : smap container) (s : ser) (route : str)
       end
   end.
 
+(* The completion function a call leaves behind in a handler (the same path, looking only at that):
+   a request-shaped method was reached with a completion function, reflect accepted the arguments,
+   and the handler keeps what it was given - i.e. onceCBFunc(cbFunc) of THIS call. *)
+Definition call_keeps (cs : smap container) (route : str) (c : ctxv) (a : argv) (cb : bool) (b : beh)
+  : option bool :=
+  match find_handler cs route with
+  | Some h =>
+      if h_req h && cb && ctx_fits (h_ctx h) c && arg_fits (h_arg h) a && p_cbfit (in_ (h_meth h) 3)
+      then keeps b else None
+  | None => None
+  end.
+
+Definition call_ser_keeps (cs : smap container) (s : ser) (route : str) (dec : list (Z * dres))
+  (c : ctxv) (cb : bool) (b : beh) : option bool :=
+  match s with
+  | SNil => None
+  | _ =>
+      match get_arg_type cs route with
+      | None => None
+      | Some t =>
+          if negb (p_ptr t) then None
+          else match decode dec (p_tid t) with
+               | DBad => None
+               | DOk v => call_keeps cs route c (AVal (p_tid t) 0 v) cb b
+               end
+      end
+  end.
+
 (* callers whose completion function never panics (the harness's recorder) *)
 Definition safe_call := safe_call_g false.
 Definition call_method := call_method_g false.
@@ -381,6 +425,14 @@ Definition try_call (cols : list (smap container)) (isreq : bool) (route : str)
   | Some cs => Some (call_ser_g true cs SProto route dec cx isreq b)
   end.
 
+Definition dispatch_keeps (cols : list (smap container)) (rid : Z) (route : str)
+  (dec : list (Z * dres)) (cx : ctxv) (b : beh) : option bool :=
+  if is_empty route then None
+  else match find (fun cs => has_method cs route) cols with
+       | None => None
+       | Some cs => call_ser_keeps cs SProto route dec cx (negb (rid =? 0)) b
+       end.
+
 Definition handle_request (cols : list (smap container)) (rid : Z) (route : str)
   (dec : list (Z * dres)) (rawok : bool) (cx : ctxv) (b : beh) : dout :=
   let isreq := negb (rid =? 0) in                       (* NotifyReqID = 0 *)
@@ -397,7 +449,11 @@ Definition handle_request (cols : list (smap container)) (rid : Z) (route : str)
     end.
 
 (* ---- histories ----
-   Several collections (index k); a dispatcher is made over the listed ones, in that order. *)
+   Several collections (index k); a dispatcher is made over the listed ones, in that order.
+   Completion functions kept by handlers are numbered in the order they were kept; OFire runs one
+   of them later - in any order, any number of times, interleaved with further calls. *)
+Inductive fkind := FOk | FErr | FBad.   (* run it with: a result / an error / a result that cannot be serialised *)
+
 Inductive op :=
 | OReg (k : Z) (e : entry) (o : opts)         (* col[k].Register(entry, options...) *)
 | OBuild (k : Z)                              (* col[k].Build() *)
@@ -407,44 +463,103 @@ Inductive op :=
            (c : ctxv) (cb : bool) (b : beh)   (* CallWithSerialize(col[k], ctx, route, bytes, cb, s) *)
 | OCall (k : Z) (route : str) (a : argv) (c : ctxv) (cb : bool) (b : beh)   (* col[k].Call(ctx, route, arg, cb) *)
 | ODispatch (ks : list Z) (rid : Z) (route : str) (bytes : list Z) (dec : list (Z * dres))
-            (rawok : bool) (cx : ctxv) (b : beh).
-  (* a Service with NewDispatcher(col[ks]...) receives ServiceRequest{Sender: peer, ReqId: rid,
-     Route: route, Type: TestHello, Body: bytes}; dec = what the proto serializer makes of the
-     body per message type; rawok = remote.Deserialize(Body, Type) succeeds; cx = the dispatcher's
-     *RemoteContext *)
+            (rawok : bool) (cx : ctxv) (b : beh)
+  (* a Service with THE dispatcher over col[ks] (one dispatcher per distinct ks, reused) receives
+     ServiceRequest{Sender: peer, ReqId: rid, Route: route, Type: TestHello, Body: bytes};
+     dec = what the proto serializer makes of the body per message type; rawok =
+     remote.Deserialize(Body, Type) succeeds; cx = the dispatcher's *RemoteContext *)
+| OFire (n : Z) (kd : fkind).                 (* the n-th kept completion function is run (0-based) *)
+
+(* whom a kept completion function belongs to: the call at position pos of the history (the
+   harness's recorder of that call), or the request rid of the peer *)
+Inductive caller := KCall (pos : Z) | KReq (rid : Z).
+
+Record pend := PD { pd_who : caller; pd_done : bool (* once-guard consumed *) }.
+
+Inductive fev :=
+| FCall (pos : Z) (err : bool)      (* the completion function of the call at pos ran *)
+| FRsp (rid : Z) (r : rsp).         (* the peer received a response for request rid *)
 
 Inductive obs :=
 | BUnit
 | BBool (b : bool)
 | BArg (t : option Z)             (* type token of the reflect.Type returned, None = nil *)
 | BCall (tr : list ev) (escaped : bool)
-| BDisp (inv : list ev) (rsps : list rsp) (fell : bool) (escaped : bool).
+| BDisp (inv : list ev) (rsps : list rsp) (fell : bool) (escaped : bool)
+| BFire (delivered : list fev) (escaped : bool).
 
 Record cst := S {
   s_entries : list (entry * opts);     (* APIEntries.entries *)
   s_cs : smap container                (* APICollection.Containers *)
 }.
 
-Definition st := Z -> cst.
-Definition init : st := fun _ => S [] [].
-Definition upd (s : st) (k : Z) (v : cst) : st := fun j => if j =? k then v else s j.
+Record st := G {
+  g_cols : Z -> cst;
+  g_pend : list pend;     (* completion functions kept by handlers, oldest first *)
+  g_pos : Z               (* number of operations so far *)
+}.
+
+Definition init : st := G (fun _ => S [] []) [] 0.
+Definition col (s : st) (k : Z) : cst := g_cols s k.
+Definition upd (f : Z -> cst) (k : Z) (v : cst) : Z -> cst := fun j => if j =? k then v else f j.
 
 Definition obs_of_res (r : res) : obs :=
   match r with Done tr => BCall tr false | Escaped tr => BCall tr true end.
 
 Definition obs_of_dout (d : dout) : obs := BDisp (d_inv d) (d_rsp d) (d_fell d) (d_esc d).
 
+Definition kept (who : caller) (k : option bool) : list pend :=
+  match k with Some g => [PD who g] | None => [] end.
+
+(* running a kept completion function = onceCBFunc(cbFunc) of its own call:
+   nothing when the guard is consumed; otherwise the call's own cbFunc runs - the recorder of that
+   call, or the dispatcher's closure answering THAT request through Service.Response, which panics
+   on a result it cannot serialise (the guard is re-armed, the panic reaches whoever ran it) *)
+Definition fire_one (p : pend) (kd : fkind) : list fev * bool * pend :=
+  if pd_done p then ([], false, p)
+  else
+    let err := match kd with FErr => true | _ => false end in
+    match pd_who p, kd with
+    | KReq _, FBad => ([], true, p)
+    | KReq rid, _ => ([FRsp rid (RspDone err)], false, PD (pd_who p) true)
+    | KCall pos, _ => ([FCall pos err], false, PD (pd_who p) true)
+    end.
+
+Fixpoint fire_nth (l : list pend) (n : nat) (kd : fkind) : list fev * bool * list pend :=
+  match l, n with
+  | [], _ => ([], false, [])
+  | p :: r, Datatypes.O => let '(d, e, p') := fire_one p kd in (d, e, p' :: r)
+  | p :: r, Datatypes.S m => let '(d, e, r') := fire_nth r m kd in (d, e, p :: r')
+  end.
+
+Definition tables (s : st) (ks : list Z) : list (smap container) := map (fun k => s_cs (col s k)) ks.
+
+(* what an operation changes: the collections (Register / Build) and the kept completion functions *)
 Definition step (s : st) (o : op) : st * obs :=
+  let next cols pend := G cols pend (g_pos s + 1) in
   match o with
-  | OReg k e op_ => (upd s k (S (s_entries (s k) ++ [(e, op_)]) (s_cs (s k))), BUnit)
-  | OBuild k => (upd s k (S (s_entries (s k)) (build (s_entries (s k)))), BUnit)
-  | OHas k r => (s, BBool (has_method (s_cs (s k)) r))
+  | OReg k e op_ =>
+      (next (upd (g_cols s) k (S (s_entries (col s k) ++ [(e, op_)]) (s_cs (col s k)))) (g_pend s), BUnit)
+  | OBuild k =>
+      (next (upd (g_cols s) k (S (s_entries (col s k)) (build (s_entries (col s k))))) (g_pend s), BUnit)
+  | OHas k r => (next (g_cols s) (g_pend s), BBool (has_method (s_cs (col s k)) r))
   | OArgT k r =>
-      (s, BArg (match get_arg_type (s_cs (s k)) r with Some t => Some (p_tid t) | None => None end))
-  | OCallSer k sr r _ dec c cb b => (s, obs_of_res (call_ser (s_cs (s k)) sr r dec c cb b))
-  | OCall k r a c cb b => (s, BCall (call (s_cs (s k)) r c a cb b) false)
+      (next (g_cols s) (g_pend s),
+       BArg (match get_arg_type (s_cs (col s k)) r with Some t => Some (p_tid t) | None => None end))
+  | OCallSer k sr r _ dec c cb b =>
+      (next (g_cols s)
+            (g_pend s ++ kept (KCall (g_pos s)) (call_ser_keeps (s_cs (col s k)) sr r dec c cb b)),
+       obs_of_res (call_ser (s_cs (col s k)) sr r dec c cb b))
+  | OCall k r a c cb b =>
+      (next (g_cols s) (g_pend s ++ kept (KCall (g_pos s)) (call_keeps (s_cs (col s k)) r c a cb b)),
+       BCall (call (s_cs (col s k)) r c a cb b) false)
   | ODispatch ks rid r _ dec rawok cx b =>
-      (s, obs_of_dout (handle_request (map (fun k => s_cs (s k)) ks) rid r dec rawok cx b))
+      (next (g_cols s) (g_pend s ++ kept (KReq rid) (dispatch_keeps (tables s ks) rid r dec cx b)),
+       obs_of_dout (handle_request (tables s ks) rid r dec rawok cx b))
+  | OFire n kd =>
+      if n <? 0 then (next (g_cols s) (g_pend s), BFire [] false)
+      else let '(d, e, l) := fire_nth (g_pend s) (Z.to_nat n) kd in
+           (next (g_cols s) l, BFire d e)
   end.
 
 Fixpoint run_from (s : st) (ops : list op) : st * list obs :=
